@@ -4,19 +4,22 @@
 # (func main renamed) and builds against /repo/lib (replace directive) with the verif tag.
 set -e
 D="$1"; RACE="$2"
+VD="$(cd "$(dirname "$0")/.." && pwd)"
+REPO="${VERIF_REPO:-/repo}"   # the tree under test (default /repo; a scratch worktree when evaluating seeded changes)
 export GOFLAGS=-mod=mod GOPROXY=off GOSUMDB=off GOTOOLCHAIN=local
 mkdir -p "$D/harness"
-cp /verif/harness/*.go /verif/harness/go.mod "$D/harness/"
-cp /repo/httpClient/go.sum "$D/harness/go.sum"
-sed -e 's/^func main() {/func repoMain() {/' /repo/httpClient/main.go > "$D/harness/main_repo.go"
+cp "$VD"/harness/*.go "$D/harness/"
+sed -e "s#=> /repo/lib#=> $REPO/lib#" "$VD/harness/go.mod" > "$D/harness/go.mod"
+cp "$REPO/httpClient/go.sum" "$D/harness/go.sum"
+sed -e 's/^func main() {/func repoMain() {/' "$REPO/httpClient/main.go" > "$D/harness/main_repo.go"
 grep -q '^func repoMain() {' "$D/harness/main_repo.go" || { echo "build_harness: could not rename main in main.go" >&2; exit 2; }
 cd "$D/harness"
 if [ "$RACE" = "server" ]; then
   # the real service binary: /repo/httpClient/main.go against /repo/lib (its go.mod pins a module-cache copy of lib)
-  cp /repo/httpClient/go.mod "$D/server.mod"
-  cp /repo/httpClient/go.sum "$D/server.sum"
-  echo 'replace github.com/Azbesciak/RealDecisionMaker/lib => /repo/lib' >> "$D/server.mod"
-  (cd /repo/httpClient && go build -modfile="$D/server.mod" -o "$D/server" .)
+  cp "$REPO/httpClient/go.mod" "$D/server.mod"
+  cp "$REPO/httpClient/go.sum" "$D/server.sum"
+  echo "replace github.com/Azbesciak/RealDecisionMaker/lib => $REPO/lib" >> "$D/server.mod"
+  (cd "$REPO/httpClient" && go build -modfile="$D/server.mod" -o "$D/server" .)
   exit 0
 fi
 if [ "$RACE" = "race" ]; then
